@@ -83,7 +83,8 @@ pub fn generate(scope: &str, name: &str, seed: u64, k: u64, rng: &mut Rng, tier:
             }
         }
         "tour" => {
-            let p = Profile::small();
+            let mut p = Profile::small();
+            p.non_transitive = rng.chance(35);
             let inst = gen_instance(rng, &p);
             match load_or_report(inst) {
                 Err(s) => head + &s,
